@@ -9,34 +9,50 @@
 (* tuple met after different histories, on a fresh decoder, or on the      *)
 (* other instance must show the same hypothesis, score, segmentation,      *)
 (* alignment and lattice.                                                  *)
+(* Every utterance is filed a second time under the HISTORY of its         *)
+(* instance since its normalisation state was last replaced (creation or   *)
+(* decoder_set_cmn, with the text given): that state being the one         *)
+(* deliberate carry-over, nothing from before the reset may show - also    *)
+(* not in the second or third utterance after it, where state that the     *)
+(* text form does not expose (running sums, frame counts) comes into play. *)
 (***************************************************************************)
 EXTENDS Session, Json, IOUtils
 
 JTrace == ndJsonDeserialize(IOEnv.TRACE)
-VARIABLES l, cur, pend, seen
+VARIABLES l, cur, pend, seen, hist
 Ev == JTrace[l]
 Clause(name, cond) == IF cond THEN TRUE ELSE PrintT(<<"CLAUSE-FAILED", name, l>>) /\ FALSE
 
 Insts == 0..3
 NoPend == [set |-> FALSE]
-TInit == l = 1 /\ cur = 0 /\ pend = [i \in Insts |-> NoPend] /\ seen = << >> /\ TLCSet(1, 0)
+NoHist == <<"none">>
+TInit == l = 1 /\ cur = 0 /\ pend = [i \in Insts |-> NoPend] /\ seen = << >> /\ hist = [i \in Insts |-> NoHist] /\ TLCSet(1, 0)
 
 \* a new execution: all instances gone, the map stays
-THeader == Ev.e = "Header" /\ UNCHANGED <<cur, pend, seen>>
-TUse == Ev.e = "Use" /\ cur' = Ev.inst /\ UNCHANGED <<pend, seen>>
+\* Header = decoder_init on the current instance: its history starts
+THeader == Ev.e = "Header" /\ hist' = [hist EXCEPT ![cur] = <<"init">>] /\ UNCHANGED <<cur, pend, seen>>
+TUse == Ev.e = "Use" /\ cur' = Ev.inst /\ UNCHANGED <<pend, seen, hist>>
 \* "key:<gram>:<audio>:<batch>" announced by the driver before the utterance starts
 \* Mark "S:<tuple>" (streaming: the CMN state at the start is part of the key) or "B:<tuple>" (batch)
 TMark == /\ Ev.e = "Mark"
          /\ IF Ev.v = "__case__"        \* a new execution: every instance is gone, the map stays
-            THEN cur' = 0 /\ pend' = [i \in Insts |-> NoPend]
-            ELSE cur' = cur /\ pend' = [pend EXCEPT ![cur] = [set |-> TRUE, tag |-> Ev.v, batch |-> Ev.batch, key |-> "batch"]]
+            THEN cur' = 0 /\ pend' = [i \in Insts |-> NoPend] /\ hist' = [i \in Insts |-> NoHist]
+            ELSE /\ cur' = cur /\ hist' = hist
+                 /\ pend' = [pend EXCEPT ![cur] = [set |-> TRUE, tag |-> Ev.v, batch |-> Ev.batch, key |-> "batch", hkey |-> NoHist]]
          /\ UNCHANGED seen
 TStart == /\ Ev.e = "Start"
           /\ Clause("start-ok", Ev.ret = 0)
-          /\ pend' = [pend EXCEPT ![cur] = IF pend[cur].set /\ ~pend[cur].batch THEN [pend[cur] EXCEPT !.key = Ev.cmn]
+          /\ pend' = [pend EXCEPT ![cur] = IF pend[cur].set
+                                          THEN [pend[cur] EXCEPT !.key = IF pend[cur].batch THEN "batch" ELSE Ev.cmn,
+                                                                 !.hkey = hist[cur]]
                                           ELSE pend[cur]]
+          \* the utterance becomes part of the instance's history (whether or not it moves the estimate)
+          /\ hist' = [hist EXCEPT ![cur] = IF pend[cur].set THEN Append(@, pend[cur].tag) ELSE <<"untracked">>]
           /\ UNCHANGED <<cur, seen>>
-TFeedEnd == Ev.e \in {"Feed", "End", "Grammar", "Cmn", "SetCmn"} /\ UNCHANGED <<cur, pend, seen>>
+TSetCmn == /\ Ev.e = "SetCmn"
+           /\ hist' = [hist EXCEPT ![cur] = IF Ev.ret = 0 THEN <<"set", Ev.v>> ELSE <<"untracked">>]
+           /\ UNCHANGED <<cur, pend, seen>>
+TFeedEnd == Ev.e \in {"Feed", "End", "Grammar", "Cmn"} /\ UNCHANGED <<cur, pend, seen, hist>>
 
 Proj == CASE Ev.e = "Result" -> [hyp |-> Ev.hyp, hypnull |-> Ev.hypnull, score |-> Ev.score, scored |-> Ev.scored,
                                  segs |-> [i \in DOMAIN Ev.segs |-> <<Ev.segs[i].w, Ev.segs[i].sf, Ev.segs[i].ef, Ev.segs[i].ascr, Ev.segs[i].lscr>>]]
@@ -47,16 +63,20 @@ TObs == /\ Ev.e \in {"Result", "Align", "Lattice"}
         \* results asked mid-utterance are filed too (under their tag): asking twice, or at the same point of the
         \* same utterance in another history, must give the same answer
         /\ IF ~pend[cur].set THEN UNCHANGED seen
-           ELSE LET k == <<Ev.e, pend[cur].tag, pend[cur].key, Ev.tag>>
+           ELSE LET k == <<Ev.e, pend[cur].tag, <<"text", pend[cur].key>>, Ev.tag>>
+                    \* (filed under the history for what was asked after the end of the utterance)
+                    tracked == pend[cur].hkey # NoHist /\ pend[cur].hkey[1] # "untracked" /\ Ev.tag = "fin" /\ Ev.e # "Lattice"
+                    h == <<Ev.e, pend[cur].tag, <<"history">> \o pend[cur].hkey, Ev.tag>>
                 IN /\ Clause("same-tuple-same-" \o Ev.e, Agrees(seen, k, Proj))
-                   /\ seen' = Record(seen, k, Proj)
-        /\ UNCHANGED <<cur, pend>>
+                   /\ Clause("same-history-since-reset-same-" \o Ev.e, tracked => Agrees(seen, h, Proj))
+                   /\ seen' = IF tracked THEN Record(Record(seen, k, Proj), h, Proj) ELSE Record(seen, k, Proj)
+        /\ UNCHANGED <<cur, pend, hist>>
 
 TNext == /\ l <= Len(JTrace)
-         /\ (THeader \/ TUse \/ TMark \/ TStart \/ TFeedEnd \/ TObs)
+         /\ (THeader \/ TUse \/ TMark \/ TStart \/ TSetCmn \/ TFeedEnd \/ TObs)
          /\ l' = l + 1
          /\ TLCSet(1, l)
-TSpec == TInit /\ [][TNext]_<<l, cur, pend, seen>>
+TSpec == TInit /\ [][TNext]_<<l, cur, pend, seen, hist>>
 Accepted == IF TLCGet(1) = Len(JTrace) THEN TRUE
             ELSE PrintT(<<"REJECTED-AT", TLCGet(1) + 1>>) /\ FALSE
 =============================================================================
